@@ -10,5 +10,4 @@ CONSTANTS
   Mutant = "none"
 SPECIFICATION SpecNoFair
 VIEW view
-PROPERTY ChangeLeadsToReload
 PROPERTY KeepsScanning
